@@ -119,7 +119,7 @@ def _check_align(case):
     return 1, "ok", (len(s1), len(pts), len(ref), md), viols
 
 
-FILTERS = (None, "ac", "")
+FILTERS = (None, "ac", "", "ac", "ac")  # 3: the callback answers with a re.Match / None, 4: with a count (truthy / falsy values, as filter() accepts)
 
 
 def _check_morph(case):
@@ -127,10 +127,18 @@ def _check_morph(case):
     lo, hi = case[3] if len(case) > 3 else (0, 5)  # the source tier's own span (it need not start at 0)
     ta = IT("t", list(ea), lo, hi)
     tb = IT("u", list(eb), 0, 4)
-    filt = None if FILTERS[fi] is None else (lambda l, keep=FILTERS[fi]: l in keep)
+    if FILTERS[fi] is None:
+        filt = None
+    elif fi == 3:
+        import re as _re
+        filt = lambda l, keep=FILTERS[fi]: _re.match("[%s]" % keep, l)
+    elif fi == 4:
+        filt = lambda l, keep=FILTERS[fi]: sum(1 for ch in keep if ch == l)
+    else:
+        filt = lambda l, keep=FILTERS[fi]: l in keep
     before = (canon(ta), canon(tb))
     st, r, _ = call(ta.morph, tb, filt)
-    tag = f"morph source={ea} span=({lo},{hi}) target={eb} filter={FILTERS[fi]!r}"
+    tag = f"morph source={ea} span=({lo},{hi}) target={eb} filter={FILTERS[fi]!r}{' (answering with a Match object)' if fi == 3 else ' (answering with a count)' if fi == 4 else ''}"
     viols = []
     if (canon(ta), canon(tb)) != before:
         viols.append(Viol("morph-mutated-operand", tag))
@@ -236,8 +244,10 @@ def parts(tier):
     def gen_morph():
         for A in sets3:
             for B in sets3:
-                for fi in range(3):
+                for fi in range(5):
                     if len(A) != len(B) and fi:
+                        continue
+                    if fi >= 3 and (len(A) + len(B)) % 2:
                         continue
                     yield (D.labelled(A, "abc"), D.labelled(B, "xyz"), fi)
         # the size axis: long source and target tiers (the cumulative shift runs through every entry)
